@@ -239,6 +239,78 @@ async fn typepair(c: &Value) -> Value {
   json!({"rows": [[verdict]], "detail": detail})
 }
 
+/// C19 at the session level: a raw TCP peer completes the handshake (bytes in `hs`), reads everything the socket
+/// sends, NEVER answers a PING, and - depending on `mode` - stays silent ("idle"), or the local application keeps
+/// sending every `period_ms` once the PING is out ("app_writes"), or the peer keeps sending a data frame every
+/// `period_ms` ("peer_data"). Row: [97, ping_seen, closed_by_socket, ping_ms (since the handshake bytes were
+/// written), close_ms - ping_ms, messages the application sent after the PING].
+async fn hbpeer(c: &Value) -> Value {
+  let ctx = Context::new().expect("ctx");
+  let sock = ctx.socket(stype_of(c["stype"].as_str().unwrap())).expect("socket");
+  apply_opts(&sock, &c["opts"]).await;
+  let port = free_port();
+  let ep = format!("tcp://127.0.0.1:{port}");
+  sock.bind(&ep).await.expect("bind");
+  tokio::time::sleep(Duration::from_millis(30)).await;
+  let stream = TcpStream::connect(("127.0.0.1", port)).await.expect("raw connect");
+  stream.set_nodelay(true).unwrap();
+  let (mut rd, mut wr) = stream.into_split();
+  let ping_at = std::sync::Arc::new(std::sync::Mutex::new(None::<Instant>));
+  let ping_w = ping_at.clone();
+  let reader = tokio::spawn(async move {
+    let mut buf = vec![0u8; 65536];
+    let mut all: Vec<u8> = Vec::new();
+    loop {
+      match rd.read(&mut buf).await {
+        Ok(0) | Err(_) => return Some(Instant::now()),
+        Ok(n) => {
+          if ping_w.lock().unwrap().is_none() {
+            all.extend_from_slice(&buf[..n]);
+            if all.windows(5).any(|w| w == b"\x04PING") {
+              *ping_w.lock().unwrap() = Some(Instant::now());
+              all.clear();
+            }
+          }
+        }
+      }
+    }
+  });
+  let hs = pieces_bytes(&c["hs"]);
+  wr.write_all(&hs).await.expect("handshake write");
+  let _ = wr.flush().await;
+  let t0 = Instant::now();
+  let mode = c["mode"].as_str().unwrap_or("idle").to_string();
+  let period = Duration::from_millis(c.get("period_ms").and_then(|v| v.as_u64()).unwrap_or(80));
+  let observe = Duration::from_millis(c.get("observe_ms").and_then(|v| v.as_u64()).unwrap_or(2500));
+  let data = c.get("data").map(pieces_bytes).unwrap_or_default();
+  let mut sent_after = 0u64;
+  while t0.elapsed() < observe && !reader.is_finished() {
+    tokio::time::sleep(period).await;
+    let pinged = ping_at.lock().unwrap().is_some();
+    if pinged && mode == "app_writes" {
+      if let Ok(Ok(())) = tokio::time::timeout(Duration::from_millis(50), sock.send(Msg::from_vec(b"tick".to_vec()))).await {
+        sent_after += 1;
+      }
+    }
+    if pinged && mode == "peer_data" && !data.is_empty() {
+      let _ = wr.write_all(&data).await;
+      let _ = wr.flush().await;
+    }
+  }
+  let closed = reader.is_finished();
+  let eof_at = if closed { reader.await.ok().flatten() } else { reader.abort(); None };
+  let p = *ping_at.lock().unwrap();
+  let ping_ms = p.map(|x| x.duration_since(t0).as_millis() as u64).unwrap_or(0);
+  let close_after_ping = match (p, eof_at) {
+    (Some(a), Some(b)) => b.saturating_duration_since(a).as_millis() as u64,
+    _ => 0,
+  };
+  drop(wr);
+  let _ = tokio::time::timeout(Duration::from_secs(2), sock.close()).await;
+  let _ = tokio::time::timeout(Duration::from_secs(3), ctx.term()).await;
+  json!({"rows": [[97, p.is_some() as u64, closed as u64, ping_ms, close_after_ping, sent_after]]})
+}
+
 pub fn run_case(c: &Value) -> Value {
   let threads = c.get("threads").and_then(|v| v.as_u64()).unwrap_or(2) as usize;
   let rt = if threads <= 1 {
@@ -254,6 +326,7 @@ pub fn run_case(c: &Value) -> Value {
         match kind.as_str() {
           "rawpeer" => rawpeer(&c2).await,
           "typepair" => typepair(&c2).await,
+          "hbpeer" => hbpeer(&c2).await,
           other => panic!("unknown stack scenario {other}"),
         }
       };
